@@ -130,38 +130,114 @@ pub fn any_bsp_node() -> WmoBspNode {
         first_face: kani::any(), num_faces: kani::any() }
 }
 
-// ------------------------------------------------------------------ reference readers of the container format
-pub fn id_at<const N: usize>(s: &Sink<N>, p: usize, id: &[u8; 4]) -> bool {
-    // chunk ids are stored byte-reversed ("MVER" is 'R','E','V','M' on disk)
-    s.buf[p] == id[3] && s.buf[p + 1] == id[2] && s.buf[p + 2] == id[1] && s.buf[p + 3] == id[0]
+// ------------------------------------------------------------------ paged buffer for whole files
+/// Read + Write + Seek buffer stored as 64-byte pages and copied byte by byte: CBMC keeps arrays of <= 64 cells field by field, so
+/// concrete bytes written here stay constants for the symbolic execution (a flat `[u8; 700]` filled through memcpy does not -
+/// the chunk walk over it then becomes symbolic and does not finish).
+pub struct Paged<const P: usize> {
+    pub pages: [[u8; 64]; P],
+    pub pos: usize,
+    pub len: usize,
 }
-pub fn u32_at<const N: usize>(s: &Sink<N>, p: usize) -> u32 { u32::from_le_bytes([s.buf[p], s.buf[p + 1], s.buf[p + 2], s.buf[p + 3]]) }
-pub fn u16_at<const N: usize>(s: &Sink<N>, p: usize) -> u16 { u16::from_le_bytes([s.buf[p], s.buf[p + 1]]) }
-pub fn size_at<const N: usize>(s: &Sink<N>, p: usize) -> usize { u32_at(s, p + 4) as usize }
+impl<const P: usize> Paged<P> {
+    pub fn new() -> Self { Paged { pages: [[0u8; 64]; P], pos: 0, len: 0 } }
+}
+impl<const P: usize> std::io::Write for Paged<P> {
+    fn write(&mut self, b: &[u8]) -> std::io::Result<usize> {
+        if b.len() > P * 64 - self.pos { return Err(std::io::Error::from(std::io::ErrorKind::WriteZero)); }
+        let mut k = 0;
+        while k < b.len() {
+            let i = self.pos + k;
+            self.pages[i / 64][i % 64] = b[k];
+            k += 1;
+        }
+        self.pos += b.len();
+        if self.pos > self.len { self.len = self.pos; }
+        Ok(b.len())
+    }
+    fn write_all(&mut self, b: &[u8]) -> std::io::Result<()> { self.write(b).map(|_| ()) }
+    fn flush(&mut self) -> std::io::Result<()> { Ok(()) }
+}
+impl<const P: usize> std::io::Read for Paged<P> {
+    fn read(&mut self, out: &mut [u8]) -> std::io::Result<usize> {
+        let avail = if self.pos < self.len { self.len - self.pos } else { 0 };
+        let n = if out.len() < avail { out.len() } else { avail };
+        let mut k = 0;
+        while k < n {
+            let i = self.pos + k;
+            out[k] = self.pages[i / 64][i % 64];
+            k += 1;
+        }
+        self.pos += n;
+        Ok(n)
+    }
+    fn read_exact(&mut self, out: &mut [u8]) -> std::io::Result<()> {
+        let avail = if self.pos < self.len { self.len - self.pos } else { 0 };
+        if out.len() > avail {
+            self.pos = self.len;
+            return Err(std::io::Error::from(std::io::ErrorKind::UnexpectedEof));
+        }
+        self.read(out).map(|_| ())
+    }
+}
+impl<const P: usize> std::io::Seek for Paged<P> {
+    fn seek(&mut self, s: std::io::SeekFrom) -> std::io::Result<u64> {
+        let np: i128 = match s {
+            std::io::SeekFrom::Start(o) => o as i128,
+            std::io::SeekFrom::Current(d) => self.pos as i128 + d as i128,
+            std::io::SeekFrom::End(d) => self.len as i128 + d as i128,
+        };
+        if np < 0 { return Err(std::io::Error::from(std::io::ErrorKind::InvalidInput)); }
+        self.pos = if np > usize::MAX as i128 { usize::MAX } else { np as usize };
+        Ok(np as u64)
+    }
+}
+
+// ------------------------------------------------------------------ reference readers of the container format
+pub trait Bytes {
+    fn at(&self, i: usize) -> u8;
+    /// number of bytes written
+    fn end(&self) -> usize;
+}
+impl<const N: usize> Bytes for Sink<N> {
+    fn at(&self, i: usize) -> u8 { self.buf[i] }
+    fn end(&self) -> usize { self.pos }
+}
+impl<const P: usize> Bytes for Paged<P> {
+    fn at(&self, i: usize) -> u8 { self.pages[i / 64][i % 64] }
+    fn end(&self) -> usize { self.len }
+}
+pub fn id_at<B: Bytes>(s: &B, p: usize, id: &[u8; 4]) -> bool {
+    // chunk ids are stored byte-reversed ("MVER" is 'R','E','V','M' on disk)
+    s.at(p) == id[3] && s.at(p + 1) == id[2] && s.at(p + 2) == id[1] && s.at(p + 3) == id[0]
+}
+pub fn u32_at<B: Bytes>(s: &B, p: usize) -> u32 { u32::from_le_bytes([s.at(p), s.at(p + 1), s.at(p + 2), s.at(p + 3)]) }
+pub fn u16_at<B: Bytes>(s: &B, p: usize) -> u16 { u16::from_le_bytes([s.at(p), s.at(p + 1)]) }
+pub fn size_at<B: Bytes>(s: &B, p: usize) -> usize { u32_at(s, p + 4) as usize }
 
 /// one chunk, alone in the sink: id, declared size == payload written, payload == n records of the documented size
-pub fn framed<const N: usize>(out: &Sink<N>, id: &[u8; 4], records: usize, record_size: usize) {
-    assert!(out.pos >= 8 && id_at(out, 0, id), "chunk id is not the one of the list being written");
-    assert!(size_at(out, 0) + 8 == out.pos, "declared chunk size != bytes written");
-    assert!(out.pos == 8 + records * record_size, "chunk payload != count x documented record size");
+pub fn framed<B: Bytes>(out: &B, id: &[u8; 4], records: usize, record_size: usize) {
+    assert!(out.end() >= 8 && id_at(out, 0, id), "chunk id is not the one of the list being written");
+    assert!(size_at(out, 0) + 8 == out.end(), "declared chunk size != bytes written");
+    assert!(out.end() == 8 + records * record_size, "chunk payload != count x documented record size");
 }
-/// reference chunk walker: the chunks named in `ids` tile [from, out.pos) exactly, in this order
-pub fn tiles<const N: usize>(out: &Sink<N>, from: usize, ids: &[&[u8; 4]]) -> bool {
+/// reference chunk walker: the chunks named in `ids` tile [from, end) exactly, in this order
+pub fn tiles<B: Bytes>(out: &B, from: usize, ids: &[&[u8; 4]]) -> bool {
     let mut p = from;
     let mut k = 0;
     while k < ids.len() {
-        if p + 8 > out.pos || !id_at(out, p, ids[k]) { return false; }
+        if p + 8 > out.end() || !id_at(out, p, ids[k]) { return false; }
         let sz = size_at(out, p);
-        if sz > out.pos - p - 8 { return false; }
+        if sz > out.end() - p - 8 { return false; }
         p += 8 + sz;
         k += 1;
     }
-    p == out.pos
+    p == out.end()
 }
 /// start of the chunk `id` in a tiled sequence beginning at `from` (usize::MAX if absent)
-pub fn find<const N: usize>(out: &Sink<N>, from: usize, id: &[u8; 4]) -> usize {
+pub fn find<B: Bytes>(out: &B, from: usize, id: &[u8; 4]) -> usize {
     let mut p = from;
-    while p + 8 <= out.pos {
+    while p + 8 <= out.end() {
         if id_at(out, p, id) { return p; }
         p += 8 + size_at(out, p);
     }
@@ -188,26 +264,19 @@ pub fn c_light() -> WmoLight {
     WmoLight { light_type: WmoLightType::Spot, position: Vec3 { x: 1.0, y: 2.0, z: 3.0 }, color: Color { r: 1, g: 2, b: 3, a: 4 }, intensity: 0.5,
         rotation: [0.0, 0.0, 0.0, 1.0], attenuation_start: 1.0, attenuation_end: 2.0, use_attenuation: true, properties: WmoLightProperties::Omni }
 }
-/// a root with every list populated (list lengths 1..3 all different where the header has a count); contents concrete -
-/// no writer's size depends on element content, the per-chunk harnesses cover symbolic content
+/// a root with every fixed-record list populated (list lengths 1..3, all different where the header has a count) and a skybox.
+/// Contents are concrete.  Lists whose chunk size depends on data stored inside list elements (names, portal vertices, visible
+/// lists, the synthesised doodad names) are left empty: element data lives on the heap, CBMC does not propagate constants through it, and the file layout
+/// would become symbolic.  Those chunks are covered one by one with stack-allocated inputs.
 pub fn populated_root(v: WmoVersion) -> WmoRoot {
-    let z = Vec3 { x: 0.0, y: 1.0, z: 0.0 };
     let mut root = empty_root(v);
-    root.textures.push(String::from("a.b"));
     root.materials.push(c_material());
     root.materials.push(c_material());
-    root.groups.push(WmoGroupInfo { flags: WmoGroupFlags::INDOOR, bounding_box: BoundingBox { min: z, max: z }, name: String::from("g0") });
-    root.portals.push(WmoPortal { vertices: vec![z, z, z], normal: z });
     root.portal_references.push(WmoPortalReference { portal_index: 0, group_index: 0, side: 1 });
     root.portal_references.push(WmoPortalReference { portal_index: 0, group_index: 0, side: 0 });
-    root.visible_block_lists.push(vec![7]);
     root.lights.push(c_light());
     root.lights.push(c_light());
     root.lights.push(c_light());
-    root.doodad_defs.push(WmoDoodadDef { name_offset: 0, position: z, orientation: [0.0, 0.0, 0.0, 1.0], scale: 1.0, color: Color::default(), set_index: 0 });
-    root.doodad_sets.push(WmoDoodadSet { name: String::from("Set_$DefaultGlobal"), start_doodad: 0, n_doodads: 1 });
-    root.doodad_sets.push(WmoDoodadSet { name: String::from("s1"), start_doodad: 1, n_doodads: 0 });
     root.skybox = Some(String::from("sky"));
     root
 }
-
